@@ -166,6 +166,9 @@ std::string vf_run(const Case &c, vf::Ctx &ctx) {
   // metadata block
   std::string meta = ":parameter" + std::string(1, '\0');
   auto map = [&](const std::string &k, const std::string &v) { meta += ":" + k + std::string(1, '\0') + "=" + v + std::string(1, '\0'); };
+  // every third case declares rSpecial(disable) in front of the range (":special\0disable\0": a property followed by a
+  // string that is no '=value'); derived from the case, so that case files need no new field
+  if ((c.stem.size() + c.ops.size() + (size_t)c.n) % 3 == 0) { meta += ":special" + std::string(1, '\0') + "disable" + std::string(1, '\0'); ctx.count("class.rSpecial_before_range"); }
   if (c.has_min) map("min", c.mins);
   if (c.has_max) map("max", c.maxs);
   for (size_t i = 0; i < c.opts.size(); i++) map("map " + std::to_string(i), c.opts[i]);
